@@ -214,7 +214,7 @@ def check(R, F, P, cfg):
                    "" if not how or how[0] == "initial" else " (that state arises at the callback site %s of %s)" % (how[1], how[0]),
                    " > ".join(c.split("::")[-1] for c in o["chain"])),
                where=o["where"], cfg=cfg)
-    R.floor("R12.7", cfg, 2, n7)
+    R.floor("R12.7", cfg, 1, n7)   # without finalization and weak-ptrs the payload drop of a nested Cc::drop is the only callback site of the drop phase
     R.notes["reachable_entry_states[%s]" % cfg] = sorted("%s via %s" % (e, how[0]) for e, how in E.items())
 
     # ---- R12.3 collect is only called under is_collecting()==false ------------------------
